@@ -212,6 +212,11 @@ pub fn tree_size(p: Ptr, memo: &mut BTreeMap<usize, u64>) -> u64 {
 pub fn build_vtree(nvars: usize, shape: i64, vt_seed: u64, perm_idx: u64) -> VTree {
     let perm = perm_from_index(nvars, perm_idx);
     let order: Vec<VarLabel> = perm.iter().map(|v| VarLabel::new(*v as u64)).collect();
+    build_vtree_from_order(&order, shape, vt_seed)
+}
+
+pub fn build_vtree_from_order(order: &[VarLabel], shape: i64, vt_seed: u64) -> VTree {
+    let nvars = order.len();
     fn random(order: &[VarLabel], r: &mut Rng) -> VTree {
         if order.len() == 1 {
             return VTree::new_leaf(order[0]);
@@ -224,15 +229,15 @@ pub fn build_vtree(nvars: usize, shape: i64, vt_seed: u64, perm_idx: u64) -> VTr
         return VTree::new_leaf(order[0]);
     }
     match shape {
-        0 => VTree::right_linear(&order),
-        1 => VTree::left_linear(&order),
-        2 => VTree::even_split(&order, 1),
-        3 => VTree::even_split(&order, (usize::BITS - 1 - nvars.leading_zeros()) as usize),
-        _ => random(&order, &mut Rng::new(vt_seed)),
+        0 => VTree::right_linear(order),
+        1 => VTree::left_linear(order),
+        2 => VTree::even_split(order, 1),
+        3 => VTree::even_split(order, (usize::BITS - 1 - nvars.leading_zeros()) as usize),
+        _ => random(order, &mut Rng::new(vt_seed)),
     }
 }
 
-fn leaves_mask(v: &VTree) -> u32 {
+pub fn leaves_mask(v: &VTree) -> u32 {
     let mut m = 0;
     for x in v.all_vars() {
         m |= 1 << x;
